@@ -3,16 +3,16 @@ CONSTANTS
   DataKeys <- KeysS
   Vals = {"a", ""}
   Prefixes <- PfxS
-  Stores = {"s1"}
-  MaxLayers = 3
-  MaxLen = 5
-  InitBases <- Bases3
+  Stores = {"s1", "s2"}
+  MaxLayers = 2
+  MaxLen = 4
+  InitBases <- BasesFA
   ReadAll = FALSE
   LogViews = FALSE
-  Quiet = TRUE
+  Quiet = FALSE
 INIT Init
 NEXT Next
 VIEW View
 INVARIANTS TypeOK OverlayEqualsFlat CheckpointIsSaved LastScanOK
 PROPERTIES FlushIsLocal PopDiscards
-
+ACTION_CONSTRAINT EmitEdge
